@@ -50,7 +50,7 @@ MEDIA_FEATURES = ['min-width', 'max-width', 'min-height', 'max-height', 'orienta
 PSEUDO = [':hover', ':focus', ':first-child', ':active', ':visited', ':last-child']
 PSEUDO2 = ['::before', '::after', '::first-line']
 ATTRS = ['[href]', '[type=text]', '[type="text"]', '[data-x="1"]', '[lang|=en]', '[title~=hello]', '[title="x,y"]', '[title="read > more"]',
-         '[data-k="a + b"]', "[alt='p ~ q']", '[data-s="semi;colon"]', '[data-b="{}"]', '[rel="a  b"]', '[href$=".pdf"]', '[data-c=", "]']
+         '[data-k="a + b"]', "[alt='p ~ q']", '[data-s="semi;colon"]', '[data-b="{}"]', '[rel="a  b"]', '[href$=".pdf"]', '[data-c=", "]', '[width="100%"]', '[data-f="%s %(ws)s"]']
 IDS = ['main', 'top', 'nav', 'q1', 'zz-top', 'page', 'face', 'cafe', 'cafe1', 'deadbeef', 'abcdeg', 'abg', 'a1', 'bada55e', 'be', 'fade2', 'f00d']
 
 
@@ -67,6 +67,7 @@ class Gen:
         self.rng = rng
         self.f = set(features)
         self.nvar = 0
+        self.ivars = []          # variables of identifier / number kind available for @{name} interpolation (defined once, at the top)
 
     # ---- selectors
     def name(self):
@@ -83,7 +84,15 @@ class Gen:
         n = r.choice([0, 1, 1, 1, 2]) if items else r.choice([1, 1, 2])
         for _ in range(n):
             k = r.random()
-            if k < 0.55:
+            if k < 0.2 and 'isel' in self.f and self.ivars:
+                v = r.choice(self.ivars)
+                parts = [('t', '.' + r.choice(['col-', 'a-', 'row_', 'x', 'n-1-'])), ('v', v)]
+                if r.random() < 0.5:
+                    parts.append(('t', r.choice(['-s', '_x', '9', '-b-c'])))
+                    if r.random() < 0.3:
+                        parts.append(('v', r.choice(self.ivars)))
+                items.append(('iclass', parts))
+            elif k < 0.55:
                 items.append(('class', '.' + self.name()))
             elif k < 0.7:
                 items.append(('id', '#' + r.choice(IDS)))
@@ -95,7 +104,9 @@ class Gen:
                 items.append(('attr', r.choice(ATTRS)))
             else:
                 items.append(('class', '.' + self.name()))
-        if allow_amp and r.random() < 0.15:
+        if allow_amp and r.random() < 0.15 and items[-1][0] != 'elem':
+            # (an & glued to an element name would make a new element name, 'body&' under 'section' = 'bodysection':
+            #  CSS the front end of lesscpy does not read back, outside the fragment)
             items.append(('amp',))
         return items
 
@@ -141,11 +152,47 @@ class Gen:
             return ('num', self.number())
         if k < 0.87:
             return ('color', self.color())
+        if k < 0.87 + 0.06 * 0.6 and 'rstr' in self.f:
+            return ('str', self.random_string())
+        if k < 0.93 and 'istr' in self.f and self.ivars:
+            return self.interpolated_string()
         if k < 0.93 and 'str' in self.f:
             return ('str', r.choice(['"a b"', "'x'", '"semi;colon"', '"br{ace}"', "'it'", '"/* c */"', '"Helvetica Neue"']))
         if 'url' in self.f:
             return ('url', r.choice(['"img/a.png"', "'b.gif'", '"http://x.y/z.png"']))
         return ('word', r.choice(WORDS))
+
+    STRING_SPECIALS = ['url(x)y', 'a,b', 'a , b', ' ;', '{', '}', '/* c */', '// c', '  two  spaces', 'a+b', '1 + 2', '#fff', ')', '(', 'a:b', '!important', '~', '.cls',
+                       '&', '%d', ',', ', ', ';;', '}{', '=', '>', '<', '  ', ' ', '*/', '/*', '$', '[x]', 'and (a)', 'not(b)', '-', '--', '1px*2']
+
+    def string_body(self, q, allow_at=False):
+        r = self.rng
+        chars = [chr(i) for i in range(32, 127) if chr(i) not in (q, '\\', '@')]
+        return ''.join(r.choice(self.STRING_SPECIALS) if r.random() < 0.4 else r.choice(chars) for _ in range(r.randint(0, 5))).replace(q, '')
+
+    def random_string(self):
+        q = self.rng.choice(['"', "'"])
+        return q + self.string_body(q) + q
+
+    def interpolated_string(self):
+        r = self.rng
+        q = r.choice(['"', "'"])
+        parts = []
+        n = r.choice([1, 1, 2, 3])
+        for i in range(n):
+            k = r.random()
+            if k < 0.3:
+                parts.append(('t', r.choice([',', ', ', ' ', ';', "'" if q == '"' else '"', '.', '-', '}', 'x'])))
+            elif k < 0.8:
+                b = self.string_body(q)
+                if b:
+                    parts.append(('t', b))
+            parts.append(('v', r.choice(self.ivars)))
+        if r.random() < 0.7:
+            b = self.string_body(q)
+            if b:
+                parts.append(('t', b))
+        return ('istr', q, parts)
 
     def value(self, scopevars, for_variable=False):
         """comma list of space lists; strings and urls only where a following blank is not needed"""
@@ -157,7 +204,7 @@ class Gen:
             n = r.choice([1, 1, 2, 2, 3, 4])
             for i in range(n):
                 a = self.atom(scopevars)
-                if a[0] in ('str', 'url') and (i != n - 1 or for_variable):
+                if a[0] in ('str', 'url', 'istr') and (i != n - 1 or for_variable):
                     a = ('word', r.choice(WORDS))
                 if i:
                     out.append(('sp',))
@@ -307,6 +354,11 @@ class Gen:
 
     def decl_using(self, pnames):
         r = self.rng
+        if pnames and 'istr' in self.f and r.random() < 0.35:
+            save, self.ivars = self.ivars, list(pnames)
+            s = self.interpolated_string()
+            self.ivars = save
+            return ('decl', r.choice(['content', 'font-family', 'background']), ([('var', r.choice(pnames)), ('sp',)] if r.random() < 0.4 else []) + [s], False)
         if pnames and r.random() < 0.8:
             v = []
             for i in range(r.choice([1, 1, 2])):
@@ -335,7 +387,7 @@ class Gen:
     def sheet(self, nunits=None, depth=3):
         r = self.rng
         out = []
-        scopevars = []
+        scopevars = list(self.ivars)
         for _ in range(nunits or r.choice([1, 2, 3, 4, 5])):
             k = r.random()
             if 'var' in self.f and k < 0.15:
@@ -396,6 +448,8 @@ def show_sel(sel, L):
             out += (L.blank() if it[2] else '') + it[1] + (L.opt() if it[2] else '')
         elif k == 'amp':
             out += '&'
+        elif k == 'iclass':
+            out += ''.join(p[1] if p[0] == 't' else '@{' + p[1][1:] + '}' for p in it[1])
         else:
             out += it[1]
     return out
@@ -424,6 +478,8 @@ def show_value(val, L):
             out += 'url(' + it[1] + ')'
         elif k == 'arguments':
             out += '@arguments'
+        elif k == 'istr':
+            out += it[1] + ''.join(p[1] if p[0] == 't' else '@{' + p[1][1:] + '}' for p in it[2]) + it[1]
         elif k == 'expr':
             out += show_expr(it[1], L)
         else:
@@ -497,6 +553,8 @@ def sel_tokens(sel, trailing_blank):
             toks.append(it[1])
         elif k == 'amp':
             toks.append('&')
+        elif k == 'iclass':
+            toks += [p[1] if p[0] == 't' else '@{' + p[1][1:] + '}' for p in it[1]]
         elif k == 'pseudo':
             toks += [':', it[1][1:]]
         elif k == 'pseudo2':
@@ -556,6 +614,11 @@ def value_tokens(val, trailing_blank=False):
         elif k == 'comma':
             toks.append('VT %s' % coq_str(','))
         elif k == 'word' or k == 'num' or k == 'str':
+            toks.append('VT %s' % coq_str(it[1]))
+        elif k == 'istr':
+            toks.append('VT %s' % coq_str(it[1]))
+            for p in it[2]:
+                toks.append(('VT %s' % coq_str(p[1])) if p[0] == 't' else ('VVar %s' % coq_str('@{' + p[1][1:] + '}')))
             toks.append('VT %s' % coq_str(it[1]))
         elif k == 'color':
             toks.append('VT %s' % coq_str(fmt_color(it[1])))
@@ -678,6 +741,9 @@ def has_amp_after_bracket(stmts, any_attr=None):
                     yield x
             elif s[0] == 'media':
                 for x in walk(s[2]):
+                    yield x
+            elif s[0] == 'mixin':
+                for x in walk(s[3]):
                     yield x
     rules = list(walk(stmts))
     attr_anywhere = any(it[0] == 'attr' for r in rules for sel in r[1] for it in sel)
